@@ -214,7 +214,9 @@ func checkPass(run *kit.Run, c cfg, oc optCache, suffix string) {
 			routes = append(routes, rte)
 		}
 		mwsOf := func(i int) []int { return c.RouteMws[i] }
+		var held *fox.Route // the route object that Update replaces: it stays what it was
 		if c.Updated != nil && len(routes) > 0 {
+			held = routes[0]
 			rte, err := f.Update("GET", pat(0), handler, slash(routeOpts(c.Updated))...)
 			if err != nil {
 				run.Violate("update|"+id, fmt.Sprintf("Update failed: %v", err), c)
@@ -296,6 +298,22 @@ func checkPass(run *kit.Run, c cfg, oc optCache, suffix string) {
 				if !same(got, want) {
 					fail(k.name+" handler", got, want)
 				}
+			}
+		}
+		if held != nil {
+			// more routes are created after the update, then the held object is used again
+			for k := 0; k < 3; k++ {
+				_, _ = f.Handle("GET", fmt.Sprintf("/later%d/{x}", k), handler, routeOpts([]int{900 + k})...)
+			}
+			r, t := request("GET", pth(0))
+			_, tc := fox.NewTestContext(&nullW{http.Header{}}, r)
+			held.HandleMiddleware(tc)
+			want := append(append([]int(nil), c.RouteMws[0]...), handlerID)
+			if held.Pattern() != pat(0) || !same(*t, want) {
+				fail("the route object replaced by Update (still held by its creator), used after more routes were created", *t, want)
+			}
+			if held.Pattern() != pat(0) {
+				run.Violate("held-route|"+id, fmt.Sprintf("a *Route held since before its replacement now reports pattern %q, it was created for %q", held.Pattern(), pat(0)), c)
 			}
 		}
 		if run.WantSample() && nonTrivial {
